@@ -108,6 +108,7 @@ func NewWorld(cfg Config, stats *Stats) *World {
 		Stats:   stats,
 	}
 	activeCtl = w.Ctl
+	hipShift = cfg.HipShift
 	w.cmp = MakeComparator(w.Ctl)
 	w.hip = MakeHashInputProvider(w.Ctl)
 	atree.VerifSetThreshold(cfg.Slab)
